@@ -5,6 +5,7 @@
    (Selectors 4 as relations).  Check/C05.v ties the model to /repo on every run. *)
 From Verif Require Import Css.Sel Css.SelSpec Css.SelWitness Css.SelProofs.
 From Verif Require Import Css.SelParse Css.SelParseProofs Css.SelParseNormal Css.SelPrint Css.SelRoundtrip Css.SelRoundtripProofs.
+From Verif Require Import Css.SelProofsMore.
 From Coq Require Import ZArith NArith List.
 Import ListNotations.
 
@@ -99,6 +100,31 @@ Theorem C05_specificity_less_lex : forall x y, spec_less x y = true <-> lex_le x
 Proof. exact spec_less_lex. Qed.
 Print Assumptions C05_specificity_less_lex.
 
+(* :is/:not/:has/:haschild weigh as an argument that no other argument exceeds in the lexicographic order
+   (columns of any size: nothing is assumed about 10, 256, ...) *)
+Theorem C05_relative_specificity_max : forall name g,
+  (forall s, In s g -> spec_less (specificity (SRel name g)) (specificity s) = false) /\
+  (g <> [] -> exists s, In s g /\ specificity (SRel name g) = specificity s).
+Proof. exact rel_specificity_max. Qed.
+Print Assumptions C05_relative_specificity_max.
+
+(* the order is not a positional weight: in every base B the weight ((a*B+b)*B+c) misorders two triples whose
+   columns do not exceed B, and it is only right as long as the two lower columns stay below B.
+   (The tie gives Specificity.Less pairs of triples with columns around 10, 100, 256, 1000, 65536: Check/C05.v code 11.) *)
+Theorem C05_specificity_less_not_packed : forall B : Z, (0 < B)%Z ->
+  exists x y, nonneg3 x /\ nonneg3 y /\ (sp_a x <= B /\ sp_b x <= B /\ sp_c x <= B /\ sp_a y <= B /\ sp_b y <= B /\ sp_c y <= B)%Z /\
+    spec_less x y = true /\ (packed_weight B x <? packed_weight B y)%Z = false.
+Proof.
+  intros B HB. destruct (spec_less_not_packed B HB) as [x [y H]]. exists x, y. tauto.
+Qed.
+Print Assumptions C05_specificity_less_not_packed.
+
+Theorem C05_specificity_less_packed_below : forall B x y, nonneg3 x -> nonneg3 y ->
+  (sp_b x < B -> sp_c x < B -> sp_b y < B -> sp_c y < B ->
+  spec_less x y = (packed_weight B x <? packed_weight B y))%Z.
+Proof. exact spec_less_packed_below. Qed.
+Print Assumptions C05_specificity_less_packed_below.
+
 (* ---- the parser (ParseGroup) returns a group or an error for every byte string:
    no index/slice panic, no non-termination (fuel 8*len+16 is never exhausted).  Used by C07. *)
 
@@ -119,6 +145,13 @@ Definition C05_parse_print_roundtrip_statement : Prop :=
 Theorem C05_parse_normal : forall (s : str) (g : list sel), parse_group s = Ok (Some g) -> normal_group g = true.
 Proof. exact parse_group_normal. Qed.
 Print Assumptions C05_parse_normal.
+
+(* Selectors 4, 4.2-4.5: no pseudo-element inside the argument of :is/:not/:has/:haschild, at any nesting depth,
+   in anything ParseGroup accepts (the flag that forbids them is restored, not reset, after a nested argument) *)
+Theorem C05_parse_no_pseudo_element_in_relative : forall (s : str) (g : list sel),
+  parse_group s = Ok (Some g) -> forallb rel_args_pe_free g = true.
+Proof. exact parse_no_pe_in_relative. Qed.
+Print Assumptions C05_parse_no_pseudo_element_in_relative.
 
 Theorem C05_roundtrip_of_parsed : C05_parse_print_roundtrip_statement ->
   forall (s : str) (g : list sel), parse_group s = Ok (Some g) -> parse_group (print_group g) = Ok (Some g).
